@@ -440,7 +440,8 @@ theorem nothing_after_overflow (ins : List In) : ∀ (s : S) (c : ConnSt), Over 
           simp only
           split
           · split   -- (data before the handshake was accepted: answered in HANDSHAKE, ignored once a rejection was started)
-            · exact ⟨by simp, h, c, hc⟩
+            · refine ⟨?_, h, c, hc⟩
+              intro m hm; split at hm <;> simp at hm; subst hm; rfl
             · exact ⟨by simp, h, c, hc⟩
           · obtain ⟨_, h1, h2, h3⟩ := limit_total evs s c h hc
             exact ⟨by simp [h1], h2, h3⟩
